@@ -168,6 +168,14 @@ M("c04.toy.dsa.verify.modq", "C04", DSAPY, "v = (pow(g, u1, p) * pow(y, u2, p) %
 M("c04.toy.dsa.sign.r", "C04", DSAPY, "r = pow(g, k, p) % q  # r = (g**k mod p) mod q", "r = pow(g, k, q) % p", "K-pw|dsa.toy.sign")
 M("c04.twin.toy.ecdsa.verify", "C04", ECCPY, "return (point1 + point2).x % order == rs[0]", "v = (point2 + point1).x % order\n        return v == rs[0]", twin=True)
 
+KWPY, KWPPY = "lib/Crypto/Cipher/_mode_kw.py", "lib/Crypto/Cipher/_mode_kwp.py"
+M("c02.kw.steps", "C02", KWPY, "    s = 6 * (n - 1)\n    A = S[0]", "    s = 6 * n\n    A = S[0]", "K-pw|kw")
+M("c02.kw.t.endian", "C02", KWPY, "        t_64 = struct.pack('>Q', t)\n        ct = cipher.encrypt", "        t_64 = struct.pack('<Q', t)\n        ct = cipher.encrypt", "K-pw|kw")
+M("c02.kw.icv.partial", "C02", KWPY, "        if pt[:8] != b'\\xA6\\xA6\\xA6\\xA6\\xA6\\xA6\\xA6\\xA6':", "        if pt[:4] != b'\\xA6\\xA6\\xA6\\xA6':", "K-pw|kw.bytes")
+M("c02.kwp.padcheck.drop", "C02", KWPPY, "        if S[len(S) - padlen:] != b'\\x00' * padlen:\n            raise ValueError(\"Incorrect decryption\")\n", "", "K-pw|kwp.bytes")
+M("c02.kwp.padlen.range", "C02", KWPPY, "        if padlen < 0 or padlen > 7:", "        if padlen < 0 or padlen > 8:", "K-pw|kwp.bytes")
+M("c02.kwp.mli.endian", "C02", KWPPY, "AIV = b'\\xA6\\x59\\x59\\xA6' + struct.pack('>I', len(plaintext))", "AIV = b'\\xA6\\x59\\x59\\xA6' + struct.pack('<I', len(plaintext))", "K-pw|kwp.bytes")
+M("c02.kwp.single.block", "C02", KWPPY, "        if len(padded) == 8:\n            res = self._cipher.encrypt(AIV + padded)\n        else:\n            res = W(self._cipher, AIV + padded)", "        res = W(self._cipher, AIV + padded)", "K-pw|kwp.bytes")
 OAEPPY = "lib/Crypto/Cipher/PKCS1_OAEP.py"
 M("c07.oaep.eme.order", "C07", OAEPPY, "        em = b'\\x00' + maskedSeed + maskedDB", "        em = b'\\x00' + maskedDB + maskedSeed", "K-pw|oaep.eme.bytes")
 M("c07.oaep.eme.dbmasklen", "C07", OAEPPY, "        dbMask = self._mgf(ros, k-hLen-1)\n        # Step 2f", "        dbMask = self._mgf(ros, k-hLen)\n        # Step 2f", "K-pw|oaep.eme.bytes")
